@@ -15,7 +15,7 @@ FUNCTIONS = ["xgcm.padding:_pad_face_connections", "xgcm.padding:pad", "xgcm.pad
              "xgcm.grid:Grid._map_kwargs_over_axes", "xgcm.grid:Grid._1d_grid_ufunc_dispatch", "xgcm.grid:Grid.cumsum",
              "xgcm.grid:Grid._apply_vector_function", "xgcm.grid_ufunc:apply_as_grid_ufunc", "xgcm.transform:transform", "xgcm.grid:Grid.set_metrics"]
 BOUNDS = {
-    "quick": {"sequences": "every operation of 21 families twice on the same argument objects, and every ordered pair of operations on the same Grid and objects, each compared with the operation run first on fresh objects; constructor with every mapping-valued argument",
+    "quick": {"sequences": "every operation of 26 families twice on the same argument objects, and every ordered pair of operations on the same Grid and objects, each compared with the operation run first on fresh objects; constructor with every mapping-valued argument",
               "grids": "simple 2-axis grid with metrics; 2-face grid with an axis-swapping link (vector operations); outer-position grid (transform)", "data": "symbolic"},
     "thorough": {"sequences": "+ every ordered triple over 8 representative families"},
 }
@@ -35,7 +35,7 @@ class Objs:
         self.ds["xc"].attrs["units"] = "m"
         self.ds["dx"] = (("xc",), posdata(W, "dx", (N,)))
         self.ds["dxg"] = (("xg",), posdata(W, "dxg", (N,)))
-        self.ds["dy"] = (("yc",), posdata(W, "dy", (N,)))
+        self.ds["dy"] = (("yc", "xc"), posdata(W, "dy", (N, N)))
         self.coords = {"X": {"center": "xc", "left": "xg"}, "Y": {"center": "yc", "left": "yg"}, "Z": {"center": "zc", "outer": "zo"}}
         self.boundary_ctor = {"X": "extend", "Y": None, "Z": "fill"}
         self.fill_ctor = {"X": 1.5}
@@ -65,10 +65,12 @@ class Objs:
         self.theta = xr.DataArray(np.array([[1.0, 2.0, 4.0], [5.0, 3.5, 1.5]]), dims=["t", "zc"])  # anonymous on purpose
         self.theta_o = xr.DataArray(np.array([[0.5, 1.5, 3.0, 4.5], [4.0, 2.0, 2.0, 1.0]]), dims=["t", "zo"], name="theta")
         self.wo = xr.DataArray(mk("wo", (2, 4)), dims=["t", "zo"], name="w")
+        self.ayg = xr.DataArray(mk("ayg", (2, N, N)), dims=["t", "yg", "xc"], name="ayg")
+        self.agg = xr.DataArray(mk("agg", (2, N, N)), dims=["t", "yg", "xg"], name="agg")
         self.levels = np.array([1.5, 3.0])
         self.bins = np.array([0.5, 2.0, 4.5])
         self.tracked = ["ds", "coords", "boundary_ctor", "fill_ctor", "metrics", "table", "shifts", "a", "fa", "u", "v", "vec", "other", "vec2", "bdict", "fdict",
-                        "todict", "mwdict", "widths", "phi", "theta", "theta_o", "levels", "bins", "wo"]
+                        "todict", "mwdict", "widths", "phi", "theta", "theta_o", "levels", "bins", "wo", "ayg", "agg"]
 
 
 def posdata(W, name, shape):
@@ -123,6 +125,11 @@ OPS = {
     "interp-unpadded-outer-to-center": lambda o: o.grid.interp(o.wo, "Z", to="center"),
     "min-unpadded-center-to-outer-and-back": lambda o: o.grid.min(o.grid.max(o.phi, "Z", to="outer", boundary="extend"), "Z", to="center"),
     "cumsum-unpadded": lambda o: o.grid.cumsum(o.wo, "Z", to="center"),
+    "interp_like": lambda o: o.grid.interp_like(o.a, xr.DataArray(np.zeros((N, N)), dims=["yg", "xg"]), boundary=o.bdict, fill_value=o.fdict),
+    "get_metric": lambda o: o.grid.get_metric(o.a, ("X", "Y")),
+    "vector-diff-2d": lambda o: o.fgrid.diff_2d_vector(o.vec2, boundary="fill")["X"],
+    "integrate-metric-must-be-interpolated": lambda o: o.grid.integrate(o.ayg, "Y"),
+    "average-metric-must-be-interpolated-elsewhere": lambda o: o.grid.average(o.agg, "Y"),
     "cumsum": lambda o: o.grid.cumsum(o.a, "Y", to="left", boundary=o.bdict, fill_value=o.fdict),
     "integrate": lambda o: o.grid.integrate(o.a, ["X", "Y"]),
     "average": lambda o: o.grid.average(o.a, "X"),
